@@ -40,8 +40,11 @@ DefSources ==
   {[k |-> "default", d |-> WithCred([Z EXCEPT !.tls = t, !.hostname = hn], ck)] :
      t \in UDefTls, ck \in UDefCred, hn \in UDefHostname}
 \* one auths entry (kinds with a helper also get a credHelpers entry; "h1" alone is a credHelpers
-\* entry without auths entry)
+\* entry without auths entry; "s1" is a credsStore)
 DockerConf(key, ck) ==
+  IF ck = "s1"      \* a credsStore whose helper lists the key with user u1
+  THEN [auths |-> <<>>, helpers |-> <<>>, store |-> "s1", list |-> <<[key |-> key, user |-> "u1"]>>]
+  ELSE
   [auths |-> IF ck \in {"h1", "h2"} THEN <<>>
              ELSE <<[key |-> key, user |-> CredRec(ck).user, pass |-> CredRec(ck).pass,
                      token |-> CredRec(ck).token]>>,
